@@ -8,6 +8,7 @@ import (
 	"math"
 	"math/big"
 	"unicode/utf8"
+	"unsafe"
 
 	"golang.org/x/tools/go/ssa"
 )
@@ -897,14 +898,21 @@ func (r *Run) conv(fr *frame, instr *ssa.Convert, tdst, tsrc types.Type, x Value
 		}
 		if ut_src.Kind() == types.UnsafePointer && db.Kind() == types.Uintptr {
 			// address as integer: only nil-ness is meaningful
+			// address as integer: the engine cell's own address, halved so that consecutive
+			// elements of one array are 8 bytes apart (engine cells are 16-byte interface values);
+			// distinct objects get distinct, non-overlapping ranges, which is all that
+			// overlap/aliasing checks (gonum) look at
 			switch p := x.(type) {
 			case *Value:
 				if p == nil {
 					return r.tt.Const(64, 0)
 				}
-				return r.tt.Const(64, 0xc000100000)
+				return r.tt.Const(64, uint64(uintptr(unsafe.Pointer(p))/2))
 			case UPtr:
-				return r.tt.Const(64, 0xc000200000)
+				if len(p.back) == 0 {
+					return r.tt.Const(64, 0xc000200000)
+				}
+				return r.tt.Const(64, uint64(uintptr(unsafe.Pointer(&p.back[0]))/2))
 			}
 		}
 		switch xv := x.(type) {
@@ -928,6 +936,22 @@ func (r *Run) conv(fr *frame, instr *ssa.Convert, tdst, tsrc types.Type, x Value
 					return mkFloat(float64(xv.val), f32)
 				}
 				if r.eng.cfg.RealFloats {
+					if xv.op == OpVar && r.realBacked[xv.name] {
+						// a sample that is only ever read as a number: its value is a real
+						// variable ranging over the integer type's interval (see vSymU16R)
+						sg := isSigned(tsrc)
+						nm := xv.name + "$u"
+						lo, hi := new(big.Rat), new(big.Rat).SetInt64(int64(mask(xv.sort)))
+						if sg {
+							nm = xv.name + "$s"
+							lo = new(big.Rat).SetInt64(-(int64(1) << (uint(xv.sort) - 1)))
+							hi = new(big.Rat).SetInt64((int64(1) << (uint(xv.sort) - 1)) - 1)
+						}
+						rv := r.tt.Var(SReal, nm)
+						r.addPC(r.tt.And(r.tt.RBin(OpRLe, r.tt.RConst(lo), rv), r.tt.RBin(OpRLe, rv, r.tt.RConst(hi))))
+						r.addPC(r.tt.UF("is_int", SBool, rv, nil))
+						return Float{t: rv, f32: f32}
+					}
 					return Float{t: r.tt.ToReal(xv, isSigned(tsrc)), f32: f32}
 				}
 				return Float{unk: true, f32: f32}
